@@ -15,7 +15,7 @@ import sys
 
 import numpy as np
 
-from sim import kernel, scenes, seams
+from sim import kernel, scenes, seams, prmspace
 from sim.digest import chunk_parts, parts_digest, frame_digest, rng_state_equal
 from sim.minimise import shrink_history
 from sim.threads import Injected, InjectedBase, src_prefix
@@ -26,6 +26,18 @@ POOL_CLASSES = ['rng-sensitive', 'rng-sensitive', 'split', 'merge+split', 'demo-
 HIST_PER_RUN = 4
 BODY_FNS = ('mock_layers', 'sin_layer', 'flat_layer')
 _BODY_LINES = [None]
+STAGE_LEAVES = {
+    'slicing': [('SLICING_PRMS', 'distance_threshold'), ('SLICING_PRMS', 'dt_scale'),
+                ('SLICING_PRMS', 'height_scale_kwargs', 'min_range')],
+    'grouping': [('GROUPING_PRMS', 'height_pad_perc'), ('GROUPING_PRMS', 'dt_scale'),
+                 ('GROUPING_PRMS', 'height_scale_range')],
+    'layering': [('LAYERING_PRMS', 'gmm_kwargs', 'rescale_0_to_x'),
+                 ('LAYERING_PRMS', 'gmm_kwargs', 'scores'),
+                 ('LAYERING_PRMS', 'gmm_kwargs', 'delta_mul_gain'),
+                 ('LAYERING_PRMS', 'min_okta_to_split')],
+    'metar': [('MAX_HITS_OKTA0',), ('MAX_HOLES_OKTA8',), ('BASE_LVL_HEIGHT_PERC',),
+              ('BASE_LVL_LOOKBACK_PERC',), ('LOWESS', 'frac'), ('LOWESS', 'it')],
+}
 
 
 # ------------------------------------------------------------------------------------------
@@ -163,6 +175,39 @@ def op_demo_inject(frac, exc_name):
 # ------------------------------------------------------------------------------------------
 # histories
 # ------------------------------------------------------------------------------------------
+def alone_digest(scene):
+    """Digest of one (scene, parameters) pair processed alone in a pristine fork of this process
+    (taken before any history ran here): the reference for 'whatever was processed before'."""
+    import pickle
+    rfd, wfd = os.pipe()
+    pid = os.fork()
+    if pid == 0:
+        code = 1
+        try:
+            os.close(rfd)
+            dig, rng_ok, _ = op_run(scene)
+            with os.fdopen(wfd, 'wb') as fil:
+                pickle.dump((dig, rng_ok), fil)
+            code = 0
+        finally:
+            os._exit(code)
+    os.close(wfd)
+    with os.fdopen(rfd, 'rb') as fil:
+        data = fil.read()
+    os.waitpid(pid, 0)
+    if not data:
+        raise kernel.HarnessError('forked reference run gave no result')
+    return pickle.loads(data)
+
+
+def alone_references(pool):
+    out = {}
+    for scene in pool:
+        dig, _ = alone_digest(scene)
+        out['scene:' + kernel.sha([scene['rows'], scene['prms']])] = dig
+    return out
+
+
 def gen_ops(rng, n_scenes):
     ops = []
     for _ in range(rng.randint(6, 12)):
@@ -340,7 +385,8 @@ def replay(case):
     ops = [o for h in case.get('prelude', []) for o in h] + case['ops']
     if case.get('fresh'):
         return _replay_fresh(case)
-    vio = run_history(case['pool'], ops, {}, case['clock_seed'])
+    seen = alone_references(case['pool'])
+    vio = run_history(case['pool'], ops, seen, case['clock_seed'])
     if vio is None:
         return None
     return _package(case['pool'], case['ops'], vio, case['clock_seed'], case.get('prelude'))
@@ -389,20 +435,55 @@ def execute(run):
     rng_scene = kernel.stream(run['seed'], 'scene')
     rng_ops = kernel.stream(run['seed'], 'ops')
     rng_fault = kernel.stream(run['seed'], 'fault')
-    pool = []
-    for _ in range(3):
-        scene = scenes.gen_scene(rng_scene, rng_scene.choice(POOL_CLASSES))
-        info = scenes.probe(scene)
-        if info['raised'] not in (None, 'AmpycloudError'):
+    # NOTE: nothing of ampycloud's pipeline may run in this process before the isolated
+    # references have been taken in forks of it (a probe run here would hand its leftovers -
+    # e.g. a cache - to those forks and make them agree with the history runs)
+    pool = [scenes.gen_scene(rng_scene, rng_scene.choice(POOL_CLASSES)) for _ in range(3)]
+    # variants: the same hit table with another value of one parameter leaf, so that state keyed
+    # by the data alone (caches) is exercised with different parameters in one process
+    dflt = prmspace.packaged_defaults()
+    for base in list(pool[:2]):
+        from sim.models import get_path, leaf_paths
+        leaves = {q: get_path(base['prms'], q) for q in leaf_paths(base['prms'])}
+        # some of one pipeline stage's leaves change, everything upstream stays identical: state
+        # keyed by the upstream data alone then meets different downstream parameters
+        kind = rng_scene.choice(sorted(STAGE_LEAVES))
+        chosen = [q for q in STAGE_LEAVES[kind] if rng_scene.random() < 0.5] or \
+            [rng_scene.choice(STAGE_LEAVES[kind])]
+        for path in chosen:
+            if path == ('LAYERING_PRMS', 'gmm_kwargs', 'rescale_0_to_x') \
+                    and rng_scene.random() < 0.7:
+                leaves[path] = rng_scene.choice([1, 0.1, 0.01])
+                continue
+            leaves[path] = prmspace.gen_value(rng_scene, path,
+                                              avoid=[leaves.get(path, get_path(dflt, path))])
+        if kind == 'layering':
+            leaves[('LAYERING_PRMS', 'gmm_kwargs', 'mode')] = 'delta'
+        var = {'cls': base['cls'], 'rows': base['rows'],
+               'prms': prmspace.assign_from_leaves(leaves)}
+        var['variant_kind'] = kind
+        pool.append(var)
+    seen, prelude = {}, []
+    # reference: every pooled subject processed alone in a pristine fork (before any history);
+    # subjects whose isolated run dies with a foreign exception are dropped (C08's question)
+    keep = []
+    for scene in pool:
+        dig, _ = alone_digest(scene)
+        if dig.startswith('exc:') and dig != 'exc:AmpycloudError':
             stats['scenes_discarded'] = stats.get('scenes_discarded', 0) + 1
             continue
-        pool.append(scene)
+        keep.append(scene)
+        seen['scene:' + kernel.sha([scene['rows'], scene['prms']])] = dig
+        if 'variant_kind' in scene:
+            key = f'probe.same_rows_other_{scene.pop("variant_kind")}_parameters_in_pool'
+            stats[key] = stats.get(key, 0) + 1
+    pool = keep
     if not pool:
         return out
+    stats['probe.isolated_reference_runs_in_fresh_fork'] = len(pool)
     if pool[0]['cls'] == 'rng-sensitive':
         n_out = scenes.rng_sensitivity(pool[0], seeds=(1, 2, 3))
         stats['probe.rng_sensitive_scene_verified'] = int(n_out > 1)
-    seen, prelude = {}, []
     positions = {}
     for h in range(HIST_PER_RUN):
         ops = concretise(gen_ops(rng_ops, len(pool)), rng_fault)
